@@ -126,6 +126,18 @@ func refConn(calls []callKind) (frames []interface{}, log []string) {
 				log = append(log, "N:err")
 			case 'O':
 				log = append(log, "O:err")
+			case 'P', 'Q':
+				log = append(log, string(a)+":ret-err")
+				ended = true
+			case 'D':
+				n++
+				if !more {
+					log = append(log, "D:ret-err")
+					ended = true
+				} else {
+					log = append(log, "D:ok")
+					emit(map[string]interface{}{"continues": true, "parameters": map[string]interface{}{"c": float64(n)}})
+				}
 			case 'X':
 				log = append(log, "X")
 				ended = true
@@ -293,7 +305,7 @@ func jsonEqual(a, b interface{}) bool {
 }
 
 var c01Flags = []string{"", "oneway", "more", "upgrade", "more+oneway"}
-var c01Scripts = []string{"R", "CR", "CCR", "E", "NR", "OR", "Z", "X", "RX", "CX", "KE", "KM", "KNE"}
+var c01Scripts = []string{"R", "CR", "CCR", "E", "NR", "OR", "Z", "X", "RX", "CX", "KE", "KM", "KNE", "PR", "QR", "DR"}
 
 func c01Kinds() []callKind {
 	var ks []callKind
@@ -355,7 +367,7 @@ func scenariosC01(tier string) []Scen {
 		if len(s) <= 2 {
 			step := 1
 			if tier == "quick" && len(s) == 2 {
-				step = 3 // quick: every third offset for two-call streams (all offsets in thorough)
+				step = 4 // quick: every fourth offset for two-call streams (all offsets in thorough)
 			}
 			for c := 1; c < n; c += step {
 				add(c01Desc{Conns: [][]callKind{s}, Cuts: []int{c}}, 0)
